@@ -273,83 +273,105 @@ def run(p, led, tier):
     if len(hcalls) != 1:
         raise AnchorError(f"execute: expected one handler call, found {len(hcalls)}")
     hn = cfg.node_of(hcalls[0])
-    facts = guard_facts(cfg, hn)
-    not_exec = [f for f in facts if isinstance(f[0], ast.Compare) and isinstance(f[0].ops[0], (ast.In, ast.NotIn)) and src(f[0].comparators[0]) == "executed"
-                and ((isinstance(f[0].ops[0], ast.In) and f[1] is False) or (isinstance(f[0].ops[0], ast.NotIn) and f[1] is True))]
-    key = "DiagramExecutor.execute ▸ handler(inputs) ▸ not yet executed"
-    if not_exec:
-        led.ok("C16-R4", key, where(exe, hcalls[0]), f"dominated by `{short(not_exec[0][0])}` = {not_exec[0][1]}")
-    else:
-        led.fail("C16-R4", key, where(exe, hcalls[0]), "handler call not guarded by 'module not yet executed': a module can run twice")
-    ready = [f for f in facts if (isinstance(f[0], ast.Name) and f[1] is True and _is_all_inputs(exe, f[0].id)) or (f[1] is True and _all_inputs_expr(f[0]))]
-    key = "DiagramExecutor.execute ▸ handler(inputs) ▸ all declared inputs present"
-    if ready:
-        led.ok("C16-R4", key, where(exe, hcalls[0]), f"dominated by `{short(ready[0][0])}` (all(port in module_inputs[m] for port in spec.inputs))")
-    else:
-        led.fail("C16-R4", key, where(exe, hcalls[0]), "handler call not guarded by 'all declared inputs present': a partially wired module can run")
     adds = {cfg.node_of(c) for c in walk_no_nested(exe.node) if isinstance(c, ast.Call) and isinstance(c.func, ast.Attribute) and c.func.attr == "add" and src(c.func.value) == "executed"}
-    loop = _enclosing_for(hcalls[0])
-    head = cfg.node_of(loop.iter)
-    seen = cfg.reach(start_edges=[(hn, m, l) for m, l in hn.succ if l != "exc"], avoid=adds, cut=lambda a, b, l: l == "exc")
-    key = "DiagramExecutor.execute ▸ handler(inputs) ▸ then marked executed"
-    if head in seen or cfg.exit in seen:
-        led.fail("C16-R4", key, where(exe, hcalls[0]), "a normal path from the handler call reaches the next module without executed.add: the module can run again", path=cfg.fmt_path(cfg.witness(seen, head if head in seen else cfg.exit)))
-    else:
-        led.ok("C16-R4", key, where(exe, hcalls[0]), "every normal path from the handler call passes executed.add(module) before the next module")
-    # deliveries happen after the source's record is written
-    # (the wire-delivery store is reachable only after executed.add)
-    for st in stores:
-        if isinstance(st.value, ast.Name):
-            sn = cfg.node_of(st)
-            seen = cfg.reach(start_edges=[(head, m, l) for m, l in head.succ if l == "T"], avoid=adds, cut=lambda a, b, l: b is head)
-            key = "DiagramExecutor.execute ▸ wire delivery ▸ after source executed"
-            if sn in seen:
-                led.fail("C16-R4", key, where(exe, st), "a value is delivered downstream before its source module is recorded as executed")
-            else:
-                led.ok("C16-R4", key, where(exe, st), "delivery reachable only after executed.add(source)")
+    worklist = bool(adds)
+    if not worklist:
+        led.info("execute() does not keep an executed-set worklist: the once-and-in-order clause (R4) is not decided for this scheduling idiom; completeness (R5) still is")
+        led.floors["C16-R4"] = (0, "worklist idiom absent")
+    if worklist:
+        facts = guard_facts(cfg, hn)
+        not_exec = [f for f in facts if isinstance(f[0], ast.Compare) and isinstance(f[0].ops[0], (ast.In, ast.NotIn)) and src(f[0].comparators[0]) == "executed"
+                    and ((isinstance(f[0].ops[0], ast.In) and f[1] is False) or (isinstance(f[0].ops[0], ast.NotIn) and f[1] is True))]
+        key = "DiagramExecutor.execute ▸ handler(inputs) ▸ not yet executed"
+        if not_exec:
+            led.ok("C16-R4", key, where(exe, hcalls[0]), f"dominated by `{short(not_exec[0][0])}` = {not_exec[0][1]}")
+        else:
+            led.fail("C16-R4", key, where(exe, hcalls[0]), "handler call not guarded by 'module not yet executed': a module can run twice")
+        ready = [f for f in facts if (isinstance(f[0], ast.Name) and f[1] is True and _is_all_inputs(exe, f[0].id)) or (f[1] is True and _all_inputs_expr(f[0]))]
+        key = "DiagramExecutor.execute ▸ handler(inputs) ▸ all declared inputs present"
+        if ready:
+            led.ok("C16-R4", key, where(exe, hcalls[0]), f"dominated by `{short(ready[0][0])}` (all(port in module_inputs[m] for port in spec.inputs))")
+        else:
+            led.fail("C16-R4", key, where(exe, hcalls[0]), "handler call not guarded by 'all declared inputs present': a partially wired module can run")
+        loop = _enclosing_for(hcalls[0])
+        head = cfg.node_of(loop.iter)
+        seen = cfg.reach(start_edges=[(hn, m, l) for m, l in hn.succ if l != "exc"], avoid=adds, cut=lambda a, b, l: l == "exc")
+        key = "DiagramExecutor.execute ▸ handler(inputs) ▸ then marked executed"
+        if head in seen or cfg.exit in seen:
+            led.fail("C16-R4", key, where(exe, hcalls[0]), "a normal path from the handler call reaches the next module without executed.add: the module can run again", path=cfg.fmt_path(cfg.witness(seen, head if head in seen else cfg.exit)))
+        else:
+            led.ok("C16-R4", key, where(exe, hcalls[0]), "every normal path from the handler call passes executed.add(module) before the next module")
+        # deliveries happen after the source's record is written
+        # (the wire-delivery store is reachable only after executed.add)
+        for st in stores:
+            if isinstance(st.value, ast.Name):
+                sn = cfg.node_of(st)
+                seen = cfg.reach(start_edges=[(head, m, l) for m, l in head.succ if l == "T"], avoid=adds, cut=lambda a, b, l: b is head)
+                key = "DiagramExecutor.execute ▸ wire delivery ▸ after source executed"
+                if sn in seen:
+                    led.fail("C16-R4", key, where(exe, st), "a value is delivered downstream before its source module is recorded as executed")
+                else:
+                    led.ok("C16-R4", key, where(exe, st), "delivery reachable only after executed.add(source)")
 
-    # ---------------- R5 progress
+    # ---------------- R5 completeness and progress
+    # (a) completeness: the normal return is dominated by a fact "the executed collection covers all modules"
+    rets = [n for n in cfg.nodes if n.kind == "stmt" and isinstance(n.ast, ast.Return)]
+    key = "DiagramExecutor.execute ▸ returns only when every module has executed"
+    cover = []
+    for rn in rets:
+        for atom, pol, t in guard_facts(cfg, rn):
+            if isinstance(atom, ast.Compare) and len(atom.ops) == 1 and "len(self.diagram.modules)" in src(atom) and "len(" in src(atom.left) and "len(" in src(atom.comparators[0]):
+                l, op, r = atom.left, atom.ops[0], atom.comparators[0]
+                if "len(self.diagram.modules)" in src(l):
+                    l, r = r, l
+                    op = {ast.Lt: ast.Gt, ast.LtE: ast.GtE, ast.Gt: ast.Lt, ast.GtE: ast.LtE}.get(type(op), type(op))()
+                # now: len(X) op len(modules)
+                implies_all = (isinstance(op, ast.Lt) and pol is False) or (isinstance(op, (ast.GtE, ast.Eq)) and pol is True) or (isinstance(op, ast.NotEq) and pol is False)
+                if implies_all:
+                    cover.append((atom, pol))
+    wn = None
+    if cover and len(rets) >= 1 and all(any(True for _ in [1]) for _ in rets):
+        led.ok("C16-R5", key, where(exe, rets[0].ast), f"RETURN is dominated by `{short(cover[0][0])}` = {cover[0][1]}: no module is left unexecuted without an error")
+    else:
+        led.fail("C16-R5", key, where(exe, exe.node), "the report is returned without a test that every module executed: modules on an unschedulable island (a cycle no source feeds) are silently skipped instead of raising WiringError",
+                 witness="modules {src→sink} plus an unreachable 2-cycle {x⇄y}: execute() returns a report, x and y never run")
+    # (b) progress: a scheduling pass that executes nothing must raise (only relevant for an iterate-until-done loop)
     whiles = [n for n in walk_no_nested(exe.node) if isinstance(n, ast.While)]
-    if len(whiles) != 1:
-        raise AnchorError(f"execute: expected one scheduling loop, found {len(whiles)}")
-    wn = cfg.node_of(whiles[0].test)
-    key = "DiagramExecutor.execute ▸ scheduling loop ▸ progress or raise"
-    seen = cfg.reach(start_edges=[(wn, m, l) for m, l in wn.succ if l == "T"], avoid=adds)
-    # fold the progress flag: find a boolean local assigned False right at the loop start and True next to executed.add
-    flagvar = None
-    for n in whiles[0].body:
-        if isinstance(n, ast.Assign) and isinstance(n.targets[0], ast.Name) and isinstance(n.value, ast.Constant) and n.value.value is False:
-            flagvar = n.targets[0].id
-            fnode = cfg.node_of(n)
-    if flagvar is None:
-        if wn in seen:
-            led.fail("C16-R5", key, where(exe, whiles[0]), "a pass of the scheduling loop that executes nothing returns to the loop test: unschedulable diagrams loop forever")
+    for wh in whiles:
+        wn = cfg.node_of(wh.test)
+        key = "DiagramExecutor.execute ▸ scheduling loop ▸ progress or raise"
+        seen = cfg.reach(start_edges=[(wn, m, l) for m, l in wn.succ if l == "T"], avoid=adds)
+        flagvar = None
+        for n in wh.body:
+            if isinstance(n, ast.Assign) and isinstance(n.targets[0], ast.Name) and isinstance(n.value, ast.Constant) and n.value.value is False:
+                flagvar = n.targets[0].id
+                fnode = cfg.node_of(n)
+        if flagvar is None:
+            if wn in seen:
+                led.fail("C16-R5", key, where(exe, wh), "a pass of the scheduling loop that executes nothing returns to the loop test: unschedulable diagrams loop forever")
+            else:
+                led.ok("C16-R5", key, where(exe, wh), "loop test unreachable from a pass without executed.add")
         else:
-            led.ok("C16-R5", key, where(exe, whiles[0]), "loop test unreachable from a pass without executed.add")
-    else:
-        # every `flag = True` must be in the same straight-line block as an executed.add
-        trues = [cfg.node_of(n) for n in walk_no_nested(whiles[0]) if isinstance(n, ast.Assign) and isinstance(n.targets[0], ast.Name) and n.targets[0].id == flagvar
-                 and isinstance(n.value, ast.Constant) and n.value.value is True]
-        s_true = cfg.reach(start_edges=[(fnode, m, l) for m, l in fnode.succ], avoid=adds, cut=lambda a, b, l: b is wn)
-        stray = [t for t in trues if t in s_true]
-        r = walk_folded(cfg, [(fnode, m, l) for m, l in fnode.succ], {flagvar: {False}}, avoid=adds | set(trues))
-        if stray:
-            led.fail("C16-R5", key, where(exe, stray[0].ast), f"`{flagvar} = True` reachable in a pass that executed no module: the no-progress error is masked")
-        elif wn in r:
-            led.fail("C16-R5", key, where(exe, whiles[0]), "a pass that executes nothing returns to the loop test without raising: cyclic diagrams loop forever", path=cfg.fmt_path(folded_path(r, wn)))
-        else:
-            led.ok("C16-R5", key, where(exe, whiles[0]), f"folding `{flagvar}` = False along passes without executed.add: only `raise WiringError` is reachable, never the loop test")
-    # loop bound: the loop condition compares executed with the module count
-    key = "DiagramExecutor.execute ▸ scheduling loop ▸ condition"
-    t = whiles[0].test
-    if isinstance(t, ast.Compare) and "len(executed)" in src(t) and "len(self.diagram.modules)" in src(t) and isinstance(t.ops[0], (ast.Lt, ast.NotEq)):
-        led.ok("C16-R5", key, where(exe, whiles[0]), f"`{short(t)}`: ends exactly when every module has executed")
-    else:
-        led.fail("C16-R5", key, where(exe, whiles[0]), f"loop condition `{short(t)}` no longer runs until all modules executed")
+            trues = [cfg.node_of(n) for n in walk_no_nested(wh) if isinstance(n, ast.Assign) and isinstance(n.targets[0], ast.Name) and n.targets[0].id == flagvar
+                     and isinstance(n.value, ast.Constant) and n.value.value is True]
+            s_true = cfg.reach(start_edges=[(fnode, m, l) for m, l in fnode.succ], avoid=adds, cut=lambda a, b, l: b is wn)
+            stray = [t for t in trues if t in s_true]
+            r = walk_folded(cfg, [(fnode, m, l) for m, l in fnode.succ], {flagvar: {False}}, avoid=adds | set(trues))
+            if stray:
+                led.fail("C16-R5", key, where(exe, stray[0].ast), f"`{flagvar} = True` reachable in a pass that executed no module: the no-progress error is masked")
+            elif wn in r:
+                led.fail("C16-R5", key, where(exe, wh), "a pass that executes nothing returns to the loop test without raising: cyclic diagrams loop forever", path=cfg.fmt_path(folded_path(r, wn)))
+            else:
+                led.ok("C16-R5", key, where(exe, wh), f"folding `{flagvar}` = False along passes without executed.add: only `raise WiringError` is reachable, never the loop test")
+    if not whiles:
+        led.ok("C16-R5", "DiagramExecutor.execute ▸ scheduling terminates", where(exe, exe.node), "no unbounded loop: scheduling iterates finite collections only", nontrivial=False)
+    if wn is None:
+        wn = rets[0] if rets else cfg.exit
     # pre-flight refusals before the loop
     pre = [n for n in cfg.nodes if n.kind == "stmt" and isinstance(n.ast, ast.Raise) and "WiringError" in src(n.ast)]
-    before = cfg.reach(starts=[cfg.entry], avoid={wn})
-    pre_before = [n for n in pre if n in before]
+    first_handler = hn
+    before = cfg.reach(starts=[cfg.entry], avoid={first_handler})
+    pre_before = [n for n in pre if n in before and not (whiles and _inside_any(n, whiles))]
     needles = {"unknown module": "Unknown module", "unknown port": "Unknown input port", "duplicate sources": "Multiple sources", "missing handler": "No handler", "missing source": "Missing input source"}
     kinds = _preflight_kinds(exe, cfg, pre_before)
     key = "DiagramExecutor.execute ▸ pre-flight refusals"
@@ -377,6 +399,16 @@ def run(p, led, tier):
         led.ok("C16-R6", key, where(rc, rc.node), "unconditional |= of every module's capabilities into the returned set")
     else:
         led.fail("C16-R6", key, where(rc, rc.node) if rc else W, "required capabilities are not the union over all modules")
+
+
+def _inside_any(node, loops):
+    st = node.ast
+    q = parent(st)
+    while q is not None:
+        if any(q is w for w in loops):
+            return True
+        q = parent(q)
+    return False
 
 
 def _enclosing_for(n):
